@@ -196,6 +196,13 @@ class Shim:
         os.utime = utime
         os.listdir = listdir
 
+        # the machine type the kernel reports belongs to the ambient as well
+        if os.environ.get('BFGSIM_PERSONALITY') == 'linux32':
+            import ctypes
+            import platform
+            ctypes.CDLL(None).personality(0x0008)      # PER_LINUX32
+            platform._uname_cache = None
+
         import random
         import uuid
         rng = random.Random(self.uuid_seed)
